@@ -78,6 +78,7 @@ type vfConn struct {
 	wfailed bool
 	afterFail int // transport Write calls begun after a fault
 	closed  int
+	onWrite func(p []byte) // scripted peers react to what was written
 }
 
 func vfNewConn(in []byte) *vfConn {
@@ -183,6 +184,9 @@ func (c *vfConn) Write(p []byte) (int, error) {
 		return 0, vfErrInjected
 	}
 	c.ops = append(c.ops, vfOp{kind: vfOpWrite, data: append([]byte(nil), p...), req: len(p)})
+	if c.onWrite != nil {
+		c.onWrite(p)
+	}
 	return len(p), nil
 }
 
